@@ -125,6 +125,7 @@ class VM:
         self.nmerged = 0
         self.trace = False
         self._cur_machine = None
+        self.unknown_is_feasible = False; self.n_unknown_feasible = 0   # over-approximate path feasibility (sound for 'holds' verdicts)
 
     # ------------------------------------------------------------------ solver
     def feasible(self, m, extra=()):
@@ -140,7 +141,9 @@ class VM:
         t0 = time.time(); self.nq += 1
         self.solver.push(); self.solver.add(*conds2); r = self.solver.check(); self.solver.pop()
         self.solver_time += time.time() - t0
-        if r == z3.unknown: raise VMError('solver returned unknown on a feasibility query')
+        if r == z3.unknown:
+            if self.unknown_is_feasible: self.n_unknown_feasible += 1; return True
+            raise VMError('solver returned unknown on a feasibility query')
         return r == z3.sat
 
     def branch(self, m, cond):
